@@ -430,7 +430,16 @@ def parseArray (kvs : Obj) (subs : Subs) (cons : Cons) : Option Ty :=
     | none => none
     | some args =>
       (match items with
-       | some (.bool false) => annotate (.tup args .reject .any) true cons
+       | some (.bool false) =>
+         -- fix C15-8: no further items is also `max_length = len(prefixItems)`
+         let n : Num := Num.ofNat args.length
+         let limit : Json := match (cons.lookup "max_length").bind numOf with
+           | some m => if m.lt n then .num m else .num n          -- min(existing, len(args)): the existing one wins a tie
+           | none => .num n
+         let cons' := if (cons.lookup "max_length").isSome
+           then cons.map fun c => if c.1 == "max_length" then (c.1, limit) else c
+           else cons ++ [("max_length", limit)]
+         annotate (.tup args .reject .any) true cons'
        | some v =>
          if truthy v then (match subOne subs "items" with
            | some t => annotate (.tup args .typed t) true cons
@@ -546,7 +555,22 @@ def baseType (N : Names) (kvs : Obj) (subs : Subs) (ty : Option String) : Option
          | none => (match lookup "enum" kvs with
            | some (.arr (v :: _)) => .prim (typeOfValue v)
            | _ => .any))
-    if cons.isEmpty then some t0 else annotate t0 false cons
+    if cons.isEmpty then some t0
+    else match t0 with
+      | .prim .null =>
+        -- fix C15-7: a Rule returns None before it looks at its constraints; null passes iff const / enum list it
+        some (if cons.all fun c =>
+                  if c.1 == "const" then (match c.2 with
+                    | .null => true
+                    | _ => false)
+                  else if c.1 == "enum" then (match c.2 with
+                    | .arr vs => vs.any fun v => match v with
+                      | .null => true
+                      | _ => false
+                    | _ => false)
+                  else true
+              then t0 else Ty.never)
+      | _ => annotate t0 false cons
 
 /-- the conditions anyOf / oneOf / allOf (/ not) add (fix C15-4) -/
 def conditions (kvs : Obj) (subs : Subs) : Option (List Ty) :=
@@ -926,6 +950,10 @@ def degenerateHere (kvs : Obj) : Bool :=
       | some a => decide (b.mant < a.mant)
       | none => false)
     | none => false) ||
+  -- no items after the prefix, but more required than the prefix has
+  ((match lookup "items" kvs, lookup "prefixItems" kvs, (lookup "minItems" kvs).bind numOf with
+    | some (.bool false), some (.arr ss), some m => decide ((ss.length : Int) < m.mant)
+    | _, _, _ => false)) ||
   -- a const that is not a value of (one of) the declared / inferred type(s), or whose class is a tuple or a format class
   (match lookup "const" kvs with
    | some v =>
@@ -938,9 +966,9 @@ def degenerateHere (kvs : Obj) : Bool :=
          | _ => false)
        | none => false
      let misfit (t : String) : Bool :=
-       !typeIs t v || fmtMisfit t || (t == "array" && (match lookup "prefixItems" kvs with
+       t != "null" && (!typeIs t v || fmtMisfit t || (t == "array" && (match lookup "prefixItems" kvs with
          | some p => truthy p
-         | none => false))
+         | none => false)))
      (match lookup "type" kvs with
       | some (.arr ts) => (ts.filterMap strOf).any misfit
       | some (.str t) => misfit t
@@ -978,6 +1006,300 @@ def degenerateProps (ps : List (String × Json)) : Bool :=
   | [] => false
   | (_, s) :: rest => degenerate s || degenerateProps rest
 termination_by structural ps
+end
+
+
+/-! ### where the run-time is known to break the contract `conforms` (predicates on the built type) -/
+
+inductive Kind where
+  | null | bool | num | str | arr | obj
+  deriving Repr, DecidableEq, Inhabited
+
+def allKinds : List Kind := [.null, .bool, .num, .str, .arr, .obj]
+
+def primKind : Prim → Kind
+  | .null => .null | .str => .str | .bool => .bool | .int => .num | .float => .num | .decimal => .num
+  | .sfmt _ => .str | .dict => .obj | .list => .arr | .tuple => .arr
+
+def unionKinds (a b : List Kind) : List Kind := a ++ b.filter fun k => !a.contains k
+
+mutual
+/-- the JSON kinds a type can publish (an over-approximation) -/
+def kindsOf (t : Ty) : List Kind :=
+  match t with
+  | .any => allKinds
+  | .anyRule => allKinds
+  | .prim p => [primKind p]
+  | .rule b _ => kindsOf b
+  | .arr _ => [.arr]
+  | .tup _ _ _ => [.arr]
+  | .map _ => [.obj]
+  | .logic op ts => if op == .neg then allKinds else kindsOfList ts
+  | .data _ _ _ _ _ => [.obj]
+termination_by structural t
+def kindsOfList (ts : List Ty) : List Kind :=
+  match ts with
+  | [] => []
+  | t :: rest => unionKinds (kindsOf t) (kindsOfList rest)
+termination_by structural ts
+end
+
+def universal (ks : List Kind) : Bool := allKinds.all ks.contains
+
+def stripRule : Ty → Ty
+  | .rule b _ => stripRule b
+  | t => t
+
+/-- two conjuncts of one `&` that can hold values of different JSON kinds at the same place (the place is followed
+through items, values and members of the same name; `fuel` bounds the descent) -/
+def mixedPair : Nat → Ty → Ty → Bool
+  | 0, _, _ => false
+  | fuel + 1, a, b =>
+    match stripRule a, stripRule b with
+    | .arr xs, .arr ys => xs.any fun x => ys.any fun y => mixedPair fuel x y
+    | .arr xs, .tup ys _ addTy => xs.any fun x => (ys.any fun y => mixedPair fuel x y) || mixedPair fuel x addTy
+    | .tup xs _ addTy, .arr ys => ys.any fun y => (xs.any fun x => mixedPair fuel x y) || mixedPair fuel addTy y
+    | .tup xs _ _, .tup ys _ _ => (xs.zip ys).any fun p => mixedPair fuel p.1 p.2
+    | .map v, .map w => mixedPair fuel v w
+    | .data fs _ _ _ _, .data gs _ _ _ _ => fs.any fun f => gs.any fun g => f.name == g.name && mixedPair fuel f.ty g.ty
+    | .data fs _ _ _ _, .map w => fs.any fun f => mixedPair fuel f.ty w
+    | .map v, .data gs _ _ _ _ => gs.any fun g => mixedPair fuel v g.ty
+    | .logic op ts, b' => op != .neg && ts.any fun t => mixedPair fuel t b'
+    | a', .logic op ts => op != .neg && ts.any fun t => mixedPair fuel a' t
+    | a', b' =>
+      let ka := kindsOf a'
+      let kb := kindsOf b'
+      !universal ka && !universal kb && ka.any fun x => kb.any fun y => x != y
+
+def mixedConj : List Ty → Bool
+  | [] => false
+  | t :: rest => rest.any (mixedPair 8 t) || mixedConj rest
+
+def hasStrCons (cons : Cons) : Bool := cons.any fun c => c.1 == "regex" || c.1 == "min_length" || c.1 == "max_length"
+
+def hasBoolMember : Json → Bool
+  | .arr vs => vs.any fun v => match v with
+    | .bool _ => true
+    | _ => false
+  | _ => false
+
+def hasBitMember : Json → Bool
+  | .arr vs => vs.any fun v => match v with
+    | .num n => n.eq (Num.ofNat 0) || n.eq (Num.ofNat 1)
+    | _ => false
+  | _ => false
+
+mutual
+/-- a boolean or a 0 / 1 somewhere inside a document -/
+def deepBit (v : Json) : Bool :=
+  match v with
+  | .bool _ => true
+  | .num n => n.eq (Num.ofNat 0) || n.eq (Num.ofNat 1)
+  | .arr xs => deepBitList xs
+  | .obj o => deepBitObj o
+  | _ => false
+termination_by structural v
+def deepBitList (xs : List Json) : Bool :=
+  match xs with
+  | [] => false
+  | x :: rest => deepBit x || deepBitList rest
+termination_by structural xs
+def deepBitObj (o : List (String × Json)) : Bool :=
+  match o with
+  | [] => false
+  | (_, x) :: rest => deepBit x || deepBitObj rest
+termination_by structural o
+end
+
+/-- an enum that Python membership (`True == 1`, also inside lists and dicts) reads differently from JSON equality -/
+def enumConflates (base : Ty) (cons : Cons) : Bool :=
+  match cons.lookup "enum" with
+  | some vs =>
+    let ks := kindsOf base
+    (ks.contains .num && hasBoolMember vs) || (ks.contains .bool && hasBitMember vs) ||
+    ((ks.contains .arr || ks.contains .obj) && (match vs with
+      | .arr ms => ms.any fun m => match m with
+        | .arr xs => deepBitList xs
+        | .obj o => deepBitObj o
+        | _ => false
+      | _ => false))
+  | none => false
+
+mutual
+/-- `conj-converts-kind`: some `&` has conjuncts of different JSON kinds: a later conjunct converts what an
+earlier one accepted (True -> 1.0, [] -> {}, '{}' -> {}), so the result no longer meets the earlier one -/
+def kindMix (t : Ty) : Bool :=
+  match t with
+  | .rule b _ => kindMix b
+  | .arr args => kindMixList args
+  | .tup items _ addTy => kindMixList items || kindMix addTy
+  | .map v => kindMix v
+  | .logic op ts => (op == .all && mixedConj ts) || kindMixList ts
+  | .data fields _ addTy _ _ => kindMixFields fields || kindMix addTy
+  | _ => false
+termination_by structural t
+def kindMixList (ts : List Ty) : Bool :=
+  match ts with
+  | [] => false
+  | t :: rest => kindMix t || kindMixList rest
+termination_by structural ts
+def kindMixFields (fs : List Fld) : Bool :=
+  match fs with
+  | [] => false
+  | .mk _ _ ty _ _ :: rest => kindMix ty || kindMixFields rest
+termination_by structural fs
+end
+
+mutual
+/-- `format-string-constraints`: length / pattern constraints on a class published as a formatted string are
+checked on the Python value (`len(bytes)`, `str(timedelta)`), not on the published string -/
+def fmtStrCons (t : Ty) : Bool :=
+  match t with
+  | .rule b cons => (hasStrCons cons && (match b with
+      | .prim (.sfmt _) => true
+      | _ => false)) || fmtStrCons b
+  | .arr args => fmtStrConsList args
+  | .tup items _ addTy => fmtStrConsList items || fmtStrCons addTy
+  | .map v => fmtStrCons v
+  | .logic _ ts => fmtStrConsList ts
+  | .data fields _ addTy _ _ => fmtStrConsFields fields || fmtStrCons addTy
+  | _ => false
+termination_by structural t
+def fmtStrConsList (ts : List Ty) : Bool :=
+  match ts with
+  | [] => false
+  | t :: rest => fmtStrCons t || fmtStrConsList rest
+termination_by structural ts
+def fmtStrConsFields (fs : List Fld) : Bool :=
+  match fs with
+  | [] => false
+  | .mk _ _ ty _ _ :: rest => fmtStrCons ty || fmtStrConsFields rest
+termination_by structural fs
+end
+
+mutual
+/-- `enum-bool-number`: an enum over a numeric class that lists a boolean, or over `bool` that lists 0 / 1 -/
+def enumBoolNum (t : Ty) : Bool :=
+  match t with
+  | .rule b cons => enumConflates b cons || enumBoolNum b
+  | .arr args => enumBoolNumList args
+  | .tup items _ addTy => enumBoolNumList items || enumBoolNum addTy
+  | .map v => enumBoolNum v
+  | .logic _ ts => enumBoolNumList ts
+  | .data fields _ addTy _ _ => enumBoolNumFields fields || enumBoolNum addTy
+  | _ => false
+termination_by structural t
+def enumBoolNumList (ts : List Ty) : Bool :=
+  match ts with
+  | [] => false
+  | t :: rest => enumBoolNum t || enumBoolNumList rest
+termination_by structural ts
+def enumBoolNumFields (fs : List Fld) : Bool :=
+  match fs with
+  | [] => false
+  | .mk _ _ ty _ _ :: rest => enumBoolNum ty || enumBoolNumFields rest
+termination_by structural fs
+end
+
+mutual
+/-- `tuple-rest-in-object`: the type of the items after `prefixItems` lives in the Rule's own options, which only
+count when the Rule is parsed on its own; inside a data class the class's addition policy is applied to them -/
+def tupleRest (inData : Bool) (t : Ty) : Bool :=
+  match t with
+  | .rule b _ => tupleRest inData b
+  | .arr args => tupleRestList inData args
+  | .tup items add addTy => (inData && add == .typed) || tupleRestList inData items || tupleRest inData addTy
+  | .map v => tupleRest inData v
+  | .logic _ ts => tupleRestList inData ts
+  | .data fields _ addTy _ _ => tupleRestFields fields || tupleRest true addTy
+  | _ => false
+termination_by structural t
+def tupleRestList (inData : Bool) (ts : List Ty) : Bool :=
+  match ts with
+  | [] => false
+  | t :: rest => tupleRest inData t || tupleRestList inData rest
+termination_by structural ts
+def tupleRestFields (fs : List Fld) : Bool :=
+  match fs with
+  | [] => false
+  | .mk _ _ ty _ _ :: rest => tupleRest true ty || tupleRestFields rest
+termination_by structural fs
+end
+
+mutual
+/-- the attribute names a built type gave to properties whose own name it could not use -/
+def renamedAttrs (t : Ty) : List String :=
+  match t with
+  | .rule b _ => renamedAttrs b
+  | .arr args => renamedAttrsList args
+  | .tup items _ addTy => renamedAttrsList items ++ renamedAttrs addTy
+  | .map v => renamedAttrs v
+  | .logic _ ts => renamedAttrsList ts
+  | .data fields _ addTy _ _ => renamedAttrsFields fields ++ renamedAttrs addTy
+  | _ => []
+termination_by structural t
+def renamedAttrsList (ts : List Ty) : List String :=
+  match ts with
+  | [] => []
+  | t :: rest => renamedAttrs t ++ renamedAttrsList rest
+termination_by structural ts
+def renamedAttrsFields (fs : List Fld) : List String :=
+  match fs with
+  | [] => []
+  | .mk a n ty _ _ :: rest => (if a != n then [a] else []) ++ renamedAttrs ty ++ renamedAttrsFields rest
+termination_by structural fs
+end
+
+mutual
+/-- a member named `k ∈ names` somewhere in a document -/
+def hasMemberIn (names : List String) (v : Json) : Bool :=
+  match v with
+  | .arr xs => hasMemberInList names xs
+  | .obj o => hasMemberInObj names o
+  | _ => false
+termination_by structural v
+def hasMemberInList (names : List String) (xs : List Json) : Bool :=
+  match xs with
+  | [] => false
+  | x :: rest => hasMemberIn names x || hasMemberInList names rest
+termination_by structural xs
+def hasMemberInObj (names : List String) (o : List (String × Json)) : Bool :=
+  match o with
+  | [] => false
+  | (k, x) :: rest => names.contains k || hasMemberIn names x || hasMemberInObj names rest
+termination_by structural o
+end
+
+/-- `member-name-clash`: an *input* member named like an attribute of the built class — a method of `Schema`
+(dropped, or stored over the method so that the instance can no longer be published) or the attribute name chosen
+for a property with an unusable name (read as that property) -/
+def memberNameClash (N : Names) (t : Ty) (input : Json) : Bool :=
+  hasMemberIn (N.reserved ++ renamedAttrs t) input
+
+mutual
+/-- `max-properties-zero`: `Options(max_params=0)` is read as "no limit" (base.py:361 `if options.max_params:`) -/
+def maxPropsZero (t : Ty) : Bool :=
+  match t with
+  | .rule b _ => maxPropsZero b
+  | .arr args => maxPropsZeroList args
+  | .tup items _ addTy => maxPropsZeroList items || maxPropsZero addTy
+  | .map v => maxPropsZero v
+  | .logic _ ts => maxPropsZeroList ts
+  | .data fields _ addTy _ maxP => (match maxP with
+      | some n => n.mant == 0
+      | none => false) || maxPropsZeroFields fields || maxPropsZero addTy
+  | _ => false
+termination_by structural t
+def maxPropsZeroList (ts : List Ty) : Bool :=
+  match ts with
+  | [] => false
+  | t :: rest => maxPropsZero t || maxPropsZeroList rest
+termination_by structural ts
+def maxPropsZeroFields (fs : List Fld) : Bool :=
+  match fs with
+  | [] => false
+  | .mk _ _ ty _ _ :: rest => maxPropsZero ty || maxPropsZeroFields rest
+termination_by structural fs
 end
 
 end KnownDefect
